@@ -1,7 +1,10 @@
 """`namedtuple(..., defaults=...)` is converted to a NamedTuple class without the defaults.
 
 Exit status 1 = defect present, 0 = absent, 2 = inconclusive (preconditions of the input failed).
-Mechanism keys: stubtest:parse-only:collections-namedtuple.__new__:is inconsistent, runtime parameter "_" has a default value but stub parameter does not, stubtest:semantic:collections-namedtuple.__new__:is inconsistent, runtime parameter "_" has a default value but stub parameter does not"""
+Mechanism keys:
+  stubtest:parse-only:collections-namedtuple.__new__:is inconsistent, runtime parameter '_' has a default value but stub parameter does not
+  stubtest:semantic:collections-namedtuple.__new__:is inconsistent, runtime parameter '_' has a default value but stub parameter does not
+"""
 import os
 import sys
 
